@@ -15,6 +15,8 @@ import (
 	"log"
 	"os"
 
+	"github.com/sarchlab/akita/v4/sim"
+
 	"verifharness/vlib"
 )
 
@@ -33,11 +35,27 @@ func replay(cat *catalogue, path string) {
 			FillSeed uint64       `json:"fill_seed"`
 			Ops      []*op        `json:"ops"`
 			Scenario *relScenario `json:"scenario"`
+			Pathmix  *pmScenario  `json:"pathmix"`
+			Chase    *chaseCase   `json:"chase"`
 		} `json:"witness"`
 	}
 	if err := json.Unmarshal(b, &f); err != nil {
 		fmt.Println("cannot parse replay:", err)
 		os.Exit(2)
+	}
+	if f.Witness.Pathmix != nil || f.Witness.Chase != nil { // path-mixing / chase layers
+		rec := &printRec{want: f.Key}
+		if f.Witness.Pathmix != nil {
+			runPathmix(rec, cat, f.Witness.Pathmix)
+		} else {
+			runChase(rec, f.Witness.Chase)
+		}
+		if rec.hit {
+			fmt.Printf("[C07] replay of %s: reproduced key %s\n", path, f.Key)
+			os.Exit(1)
+		}
+		fmt.Printf("[C07] replay of %s: key %s NOT reproduced (%d other deviations)\n", path, f.Key, rec.n)
+		os.Exit(0)
 	}
 	if f.Witness.Scenario != nil { // release layer
 		rec := &printRec{want: f.Key}
@@ -151,20 +169,69 @@ func main() {
 		})
 	}
 
+	// third layer: path-mixing histories on a real compute unit (pathmix.go)
+	sim.GetIDGenerator()
+	var pms []*pmScenario
+	pmSteps := c.N(200, 400)
+	for i := 0; i < 8; i++ { // seed-independent
+		pms = append(pms, &pmScenario{Name: fmt.Sprintf("pm-canon%d", i), Seed: 0xC07C07 + uint64(i)*0x9e3779b97f4a7c15, Style: i, Steps: pmSteps, LatHi: []int{1, 4, 30, 120}[i%4], Arch: []string{"gcn3", "cdna3"}[i/4%2]})
+	}
+	nPm := c.N(312, 4000)
+	pmBase := c.Rand("pathmix")
+	for i := 0; i < nPm; i++ {
+		pms = append(pms, genPmScenario(pmBase.ForkN("p", i), i, pmSteps))
+	}
+	if os.Getenv("C07_SKIP_PATHMIX") == "" {
+		vlib.Parallel(len(pms), 0, func(i int) {
+			if i == len(pms)-1 {
+				c.Sample(map[string]any{"pathmix_scenario": pms[i]})
+			}
+			runPathmix(c, cat, pms[i])
+		})
+	}
+
+	// fourth layer: end-to-end pointer-chasing kernels, timing vs emulation vs host (chase.go)
+	chases := canonicalChases()
+	nCh := c.N(120, 2000)
+	chBase := c.Rand("chase")
+	for i := 0; i < nCh; i++ {
+		chases = append(chases, genChase(chBase.ForkN("c", i), i))
+	}
+	if os.Getenv("C07_SKIP_CHASE") == "" {
+		vlib.Parallel(len(chases), 0, func(i int) {
+			if i == len(chases)-1 {
+				c.Sample(map[string]any{"chase_case": chases[i]})
+			}
+			runChase(c, chases[i])
+		})
+	}
+
 	minOps := int64(n) * int64(nOps) * 9 / 10
 	c.Finish(vlib.FinishOpts{
 		Rule: "case = canonical battery step, or history (2..6 co-resident wavefronts at dispatcher-like or hostile register-file offsets; " +
 			"dispatch + fill of every cell; then a seeded sequence of operand reads/writes through ReadOperand/WriteOperand/" +
 			"ReadOperandBytes/WriteOperandBytes/ReadReg/WriteReg and the typed accessors, operands taken from decoded encodings); " +
 			"non-trivial = distinct (backing, register kind, width) for which a read of that kind and width, verified against the model, " +
-			"returned cells last written by a verified history write of the same kind and width; " +
+			"returned cells last written by a verified history write of the same kind and width; every byte slice a store hands out " +
+			"(ReadOperandBytes/ReadReg) is kept alive and re-compared after every later operation (a read result is a value, not a view), a quarter of them are overwritten by the caller " +
+			"and the cells re-read raw, and the buffers given to WriteOperandBytes/WriteReg are overwritten after the call; " +
 			"release layer: case = scenario (1..3 generated kernels with WFSgprCount 8..102 / WIVgprCount 4..256 run to s_endpgm in a real compute unit, " +
-			"first-fit or last-fit placement, slots re-used by later work-groups), non-trivial = scenario in which a wavefront ended while another one was live and checked",
+			"first-fit or last-fit placement, slots re-used by later work-groups), non-trivial = scenario in which a wavefront ended while another one was live and checked; " +
+			"path-mixing layer: case = history on one real compute unit with 2..6 wavefronts (the harness only plays fetch+decode: single decoded instructions -- s_load_dword x1..x16, " +
+			"flat_load_dword x1..x4, s_mov, v_mov, s_cmp, v_readfirstlane, ds_read -- are put into Wavefront.InstToIssue and executed by the real scheduler/units/load-return handlers, " +
+			"mixed with accessor reads/writes, register-file writes made with the exact calls of handleScalarDataLoadReturn/handleVectorDataLoadReturn and hand-made s_load answers " +
+			"delivered to ToScalarMem), every read compared with a shadow array of cells; non-trivial = history with at least one 'read X, non-accessor write of X, read X again' and one load answer handled by the real compute unit; " +
+			"chase layer: case = generated straight-line kernel (pointer chasing through one SGPR/VGPR pair, SGPR operand re-read around a load return) run in the timing compute unit, " +
+			"the emulation compute unit and the host interpreter, on GCN3 and on CDNA3 (cdna3.ALU + CDNA3 decoding + register scoreboard), plus ds_write2_b32/_b64 kernels with distinct DATA0/DATA1 read back through ds_read_b32; " +
+			"non-trivial = kernel whose three register dumps agree",
 		Assumptions: []string{
 			"operands stay inside the wavefront's allocation (granule-rounded WFSgprCount/WIVgprCount) and inside s0..s101 / v0..v255; SGPR tuples are aligned as the ISA requires",
 			"WriteOperand is used for operands of at most two dwords (a uint64 cannot carry more); byte writes pass exactly the operand's size",
 			"wavefront placement arithmetic (16-SGPR and 4-VGPR granules, byte offsets, round-robin SIMD) re-implements resource.CUResourceImpl, which is in an internal package",
 			"timing register files are observed raw through SimpleRegisterFile.Read with register s0/v0, lane 0 and the byte address as wave offset",
+			"path-mixing layer: the compute unit receives in-order answers per memory port (fake FIFO memories); one instruction per wavefront is in flight at a time and the engine runs idle before the shadow is advanced; " +
+				"scalar loads use 4-byte aligned addresses below 2^40 (the synthetic memory makes every aligned pair a valid pointer); the ISA semantics of the handful of injected instructions are re-implemented on the host (pmisa.go)",
+			"chase layer: registers a kernel never writes are zero at wavefront start in both modes; the kernels use s0..s17, v0..v16, one wavefront per work-group, 1..4 co-resident work-groups",
 			"release layer: live wavefronts are observed through raw reads of cu.SRegFile/cu.VRegFile at tracer callbacks (instruction start/end) and through the sums they dump to memory; a window that is not cleared at release is counted, not judged",
 		},
 		MinNontrivial: 20,
@@ -173,6 +240,18 @@ func main() {
 			"sweeps": int64(n), "battery_cases": 300, "emu_timing_agree_on_operand": minOps / 3, "wavefronts_placed": int64(2 * n),
 			"probe.outside_property_list.explicit_diagnostic": 10,
 			"release.scenarios": int64(len(rels)), "release.ends_with_live_neighbours": int64(8 * len(rels)), "release.live_windows_checked": int64(50 * len(rels)),
+			"pm.histories": int64(len(pms)), "pm.steps": int64(len(pms)) * int64(pmSteps) * 9 / 10,
+			"pm.repeat_reads_with_intervening_nonaccessor_write": int64(len(pms)) * int64(pmSteps) / 2,
+			"pm.load_return_writes_observed":                     int64(len(pms)) * int64(pmSteps), "pm.direct_regfile_writes": int64(len(pms)) * int64(pmSteps) / 2,
+			"pm.scalar_answers_injected": int64(len(pms)) * int64(pmSteps) / 20, "pm.s_loads_executed": int64(len(pms)) * int64(pmSteps) / 10,
+			"pm.flat_loads_executed": int64(len(pms)) * int64(pmSteps) / 20, "pm.chase_loads_scalar": int64(len(pms)) * int64(pmSteps) / 50,
+			"pm.chase_loads_vector": int64(len(pms)) * int64(pmSteps) / 100, "pm.constituent_alias_checks": int64(len(pms)) * int64(pmSteps) / 10,
+			"pm.instruction_source_reads": int64(len(pms)) * int64(pmSteps) / 50, "pm.concurrent_load_groups": int64(len(pms)) * int64(pmSteps) / 50,
+			"pm.reads_verified": int64(len(pms)) * int64(pmSteps), "pm.sweeps": int64(2 * len(pms)),
+			"chase.kernels_run": int64(len(chases)), "chase.loads_overwriting_their_address_registers": int64(3 * len(chases)),
+			"chase.dump_dwords_compared": int64(1000 * len(chases)), "chase.lds_write2_kernels.gcn3": 8, "chase.lds_write2_kernels.cdna3": 8,
+			"pm.ds_writes_checked": int64(len(pms)), "pm.held_read_results_rechecked": int64(len(pms)) * int64(pmSteps),
+			"held_read_results_rechecked": minOps * 20, "held_read_results_alive_at_end": int64(n) * int64(nOps) / 10, "read_results_overwritten_by_caller": minOps / 40,
 			"release.dumps_judged": int64(5 * len(rels)), "release.slots_reused": int64(len(rels)), "release.wavefronts_ended_at_once": int64(4 * len(rels)),
 		},
 	})
